@@ -1,4 +1,5 @@
 mod c01;
+mod cjs;
 mod compile;
 mod den;
 mod jsval;
@@ -14,6 +15,9 @@ use std::sync::Arc;
 fn check_by_id(id: &str) -> Option<Arc<dyn Check>> {
     Some(match id {
         "C01" => Arc::new(c01::C01),
+        "C03" => Arc::new(cjs::C03),
+        "C11" => Arc::new(cjs::C11),
+        "C12" => Arc::new(cjs::C12),
         _ => return None,
     })
 }
